@@ -1062,6 +1062,13 @@ def work_items(tier, seed):
                 items.append(dict(kind="twod", grid="%s x %d/%s" % (gname, nd, dname), dir=d, freq=f, menu=M, tier=tier, seed=seed,
                                   scalar=(tier == "quick" or gi == pair % ng), gi=gi, order=(5, nd)))
     items.sort(key=lambda it: it["order"])
+    # written-out samples: one per kind of work (first = simplest item of the kind; one per shape for the scalar 1D items)
+    seen = set()
+    for it in items:
+        key = (it["kind"], it.get("shape") if it["kind"] == "freq_scalar" else None)
+        if key not in seen and it["kind"] in ("freq_scalar", "twin", "spread", "asym", "twod"):
+            seen.add(key)
+            it["sample"] = True
     return items
 
 
@@ -1072,6 +1079,7 @@ class Acc:
     def __init__(self):
         self.res = {"evals": 0, "n_nontrivial": 0, "samples": [], "outcomes": {}, "violations": [], "parts": {}, "worst": {}}
         self.sigs = set()
+        self.sampling = False
 
     def run(self, part, case, nontrivial=True, sample=False):
         vs, info = evaluate(case)
@@ -1094,7 +1102,7 @@ class Acc:
             if k in info:
                 self.res["worst"][k] = max(self.res["worst"].get(k, 0.0), info[k])
         oc["ok" if not vs else "violating"] = oc.get("ok" if not vs else "violating", 0) + 1
-        if sample and len(self.res["samples"]) < 1:
+        if sample and self.sampling and len(self.res["samples"]) < 1:
             self.res["samples"].append(case)
         return vs
 
@@ -1356,6 +1364,7 @@ def run_item(it):
     import time
 
     acc = Acc()
+    acc.sampling = bool(it.get("sample"))
     t0 = time.process_time()
     ITEM[it["kind"]](it, acc)
     acc.res["cpu"] = {it["kind"]: time.process_time() - t0}
